@@ -68,7 +68,10 @@ def _leaf_fn(I, leaf):
     if leaf.kind == 'ret':
         py = val_to_py(leaf.value)
         res['expected'] = concretize_py(py, m) if m is not None else None
-        res['outcome'] = py[0] if isinstance(py, list) and py and isinstance(py[0], str) else 'val'
+        if isinstance(py, list) and py and isinstance(py[0], str): res['outcome'] = py[0]
+        elif isinstance(py, list) and py and all(isinstance(x, list) and x and x[0] in ('ok', 'err') for x in py):
+            res['outcome'] = '/'.join(x[0] for x in py)       # product template
+        else: res['outcome'] = 'val'
     else:
         py = None
         res['expected'] = {leaf.kind: leaf.value}
@@ -204,6 +207,11 @@ class Run:
                 continue_validation = False
             else:
                 continue_validation = True
+            if continue_validation and r['kind'] == 'unbounded':
+                # every such replay runs into the time/memory limit: confirm a few per slice, not hundreds
+                self._unb = getattr(self, '_unb', 0) + 1
+                if self._unb > 2:
+                    continue_validation = False; self.unvalidated = getattr(self, 'unvalidated', 0) + 1
             if not continue_validation:
                 nat = None
             elif r['kind'] == 'unbounded':
@@ -212,7 +220,7 @@ class Run:
                 nat = S.replay(sl.template, r['witness'])
             if not continue_validation:
                 pass
-            elif same_outcome(nat, r['expected']):
+            elif getattr(self.prop, 'same_outcome', same_outcome)(nat, r['expected']):
                 self.validated += 1
             else:
                 self.mismatches.append({'slice': sl.name, 'args': r['witness'], 'interpreted': r['expected'], 'native': nat})
@@ -223,7 +231,12 @@ class Run:
                 self.queries += 1
                 for k in q['known']:
                     nat = self.native(S, sl, k['args'], k['expected'])
-                    if same_outcome(nat, k['expected']):
+                    confirm = getattr(self.prop, 'native_confirm', None)
+                    if confirm is not None:
+                        okk, nat = confirm(S, sl, k['args'], k['expected'], q['name'])
+                    else:
+                        okk = same_outcome(nat, k['expected'])
+                    if okk:
                         self.validated += 1
                         self.known.setdefault(k['role'], {'count': 0, 'example': None, 'query': q['name']})
                         self.known[k['role']]['count'] += 1
@@ -237,9 +250,22 @@ class Run:
                 else:
                     self.sat += 1
                     c = q['cex']
+                    if isinstance(c['expected'], dict) and 'unbounded' in c['expected']:
+                        key = (sl.name, q['name'])
+                        self._unb_confirmed = getattr(self, '_unb_confirmed', set())
+                        if key in self._unb_confirmed:
+                            self.duplicates = getattr(self, 'duplicates', 0) + 1
+                            continue       # same loop site already confirmed natively for this slice
                     nat = self.native(S, sl, c['args'], c['expected'])
-                    if same_outcome(nat, c['expected']):
+                    confirm = getattr(self.prop, 'native_confirm', None)
+                    if confirm is not None:
+                        ok, nat = confirm(S, sl, c['args'], c['expected'], q['name'])
+                    else:
+                        ok = same_outcome(nat, c['expected'])
+                    if ok:
                         self.validated += 1
+                        if isinstance(c['expected'], dict) and 'unbounded' in c['expected']:
+                            self._unb_confirmed.add((sl.name, q['name']))
                         self.violations.append({'slice': sl.name, 'template': sl.template, 'query': q['name'], 'args': [to_i64(x) for x in c['args']],
                                                 'expected': c['expected'], 'native': nat})
                     else:
@@ -267,7 +293,7 @@ class Run:
         if self.mismatches:
             code = EXIT_INCONCLUSIVE
             for mm in self.mismatches[:5]:
-                print('MODEL-MISMATCH: %s' % json.dumps(mm)[:1500])
+                print('MODEL-MISMATCH: %s' % json.dumps(mm)[:700])
         if self.unsupported:
             code = EXIT_INCONCLUSIVE
             seen = set()
